@@ -25,9 +25,12 @@ func c06KeyExtraction(module string, preferKind int) {
 	c := cmds[vr.Choose("cmd", len(cmds))]
 	k1, k2, k3 := vr.Tok("k1"), vr.Tok("k2"), vr.Tok("k3")
 	vr.Assume(k1 != k2 && k1 != k3 && k2 != k3)
-	gStoreIn(s, 0, k1, gSym("p1", preferKind, 1))
+	p1 := gSym("p1", preferKind, 1)
+	gStoreIn(s, 0, k1, p1)
+	p2 := gVal{kind: gAbsent}
 	if vr.Choose("p2", 2) == 1 {
-		gStoreIn(s, 0, k2, gSym("p2", preferKind, 1))
+		p2 = gSym("p2", preferKind, 1)
+		gStoreIn(s, 0, k2, p2)
 	}
 	x := vr.Tok("x")
 	if gByteStrings > 0 {
@@ -103,6 +106,18 @@ func c06KeyExtraction(module string, preferKind int) {
 		defer func() { recover() }()
 		c.HandlerFunc(params)
 	}()
+	// a handler may also change a stored collection in place, through the value it was handed by
+	// GetValues, without any write call: whatever key holds something else than before must have been
+	// declared as a write key
+	if !gHolds(s, k1, p1) {
+		vr.Assert(declaredWrite(k1), ob+".changed_key_is_declared_as_write_key")
+	}
+	if !gHolds(s, k2, p2) {
+		vr.Assert(declaredWrite(k2), ob+".changed_key_is_declared_as_write_key")
+	}
+	if _, created := s.store[0][k3]; created {
+		vr.Assert(declaredWrite(k3), ob+".changed_key_is_declared_as_write_key")
+	}
 	vr.Reach("end")
 }
 
